@@ -127,6 +127,13 @@ struct Mined {
       else if (all[a].second.val > all[b].second.val) same_addr.push_back({a, b}); else same_addr.push_back({b, a});
     }
   }
+  // per slot at 2^lgk slots: the pool entries with exactly the value v (uniform fills: one item per slot, all at v)
+  std::vector<std::vector<int>> by_slot(int lgk, uint32_t v) const {
+    std::vector<std::vector<int>> r((size_t)1 << lgk);
+    uint32_t mask = ((uint32_t)1 << lgk) - 1;
+    for (size_t i = 0; i < all.size(); i++) if (all[i].second.val == v) r[all[i].second.addr & mask].push_back((int)i);
+    return r;
+  }
   // entries whose 26-bit address has its six top bits set (slots near the top at every lg_k)
   std::vector<int> top_addr() const { std::vector<int> r; for (size_t i = 0; i < all.size(); i++) if ((all[i].second.addr >> 20) == 63) r.push_back((int)i); return r; }
   // the values fit both 64-bit overloads (same canonical bytes)
